@@ -66,3 +66,32 @@ func TestDivergenceIsLoud(t *testing.T) {
 		x.Choose("b", 2+flip%2) // nondeterministic harness
 	})
 }
+
+func TestClaimsPartition(t *testing.T) {
+	// simulate 4 workers that share a claim table and run one after another
+	claimed := map[int64]bool{}
+	claim := func(i int64) bool {
+		if claimed[i] {
+			return false
+		}
+		claimed[i] = true
+		return true
+	}
+	count := map[[4]int]int{}
+	for k := 0; k < 4; k++ {
+		Explore(Config{Bound: -1, Shard: k, NShards: 4, Claim: claim, ShardDepth: 2}, func(x *Exec, owned bool) {
+			v := [4]int{x.Choose("a", 3), x.Choose("b", 3), x.Choose("c", 3), x.Choose("d", 3)}
+			if owned {
+				count[v]++
+			}
+		})
+	}
+	if len(count) != 81 {
+		t.Fatalf("covered %d of 81", len(count))
+	}
+	for v, n := range count {
+		if n != 1 {
+			t.Fatalf("%v owned %d times", v, n)
+		}
+	}
+}
